@@ -3053,6 +3053,11 @@ class _Simu(_IObserver, _params.Updatable, ABC):
 
         self.__Bc_Dirichlet.append(new_Bc)
 
+        if self._Bc_Lagrange_dim(problemType) > 0:
+            # with Lagrange conditions the matrix system holds one multiplier per
+            # constrained dof: a new Dirichlet condition changes its size
+            self.Need_Update()
+
         tic.Tac("Boundary Conditions", "Add Dirichlet condition", self._verbosity)
 
     # Functions to create links between degrees of freedom
